@@ -80,16 +80,10 @@ def perturbation_hooks(root, with_foreign):
 
 def run(scen, spec, props):
     if spec.get("fresh"):
-        # fresh-interpreter twin: other hash seed (set by the caller), other global RNG state,
-        # and for model-based schedulers a foreign instance of the same kind created first
+        # fresh-interpreter twin: other hash seed (set by the caller) and other global RNG state.  (No foreign
+        # instance is created for model-based schedulers: the property exempts them from independence of other
+        # scheduler objects in the same process.)
         scen = dict(scen, global_seed=hint(2**31 - 1, scen["seed"], "fresh-global"))
-        if scen["kind"] not in zoo.MODEL_FREE:
-            try:
-                other = zoo.gen_scenario(scen["seed"] + "/foreign-gp", {"kinds": [scen["kind"]], "world": "mem"})
-                f, _ = zoo.build_scheduler(other)
-                f.suggest(0)
-            except Exception:
-                pass
     hA = harness.run_scenario(scen)
     trA = views.Trace(hA)
     res = common.base_result(hA, trA)
